@@ -74,10 +74,10 @@ func (g *Grammar) check() {
 	}
 }
 
-func nt(name string) Sym  { return Sym{NT: name} }
-func tm(t *Term) Sym      { return Sym{T: t} }
-func opt(s Sym) Sym       { s.Opt = true; return s }
-func plus(s Sym) Sym      { s.Plus = true; return s }
+func nt(name string) Sym                               { return Sym{NT: name} }
+func tm(t *Term) Sym                                   { return Sym{T: t} }
+func opt(s Sym) Sym                                    { s.Opt = true; return s }
+func plus(s Sym) Sym                                   { s.Plus = true; return s }
 func alt(b func(k [][]string) string, syms ...Sym) Alt { return Alt{Syms: syms, Build: b} }
 
 func punct(p string) *Term {
